@@ -162,6 +162,20 @@ func (tr *fnTrans) run() (vc *FuncVC) {
 			tr.instr(ins)
 		}
 	}
+	for _, li := range tr.loops {
+		if li.spec == nil {
+			continue
+		}
+		for i, c := range li.spec.IterEnsures {
+			label := c.Label
+			if label == "" {
+				label = fmt.Sprint(i)
+			}
+			if tr.iterCovered[fmt.Sprintf("%d/%s", li.ord, label)] == 0 {
+				tr.obligeG("true", "anchor", fmt.Sprintf("anchor.loop%d.iter.%s", li.ord, label), "false", token.NoPos, tr.propsOfLabel(c.Label), "iter_ensures clause evaluates on no back edge")
+			}
+		}
+	}
 	for _, at := range tr.spec.Ats {
 		if !at.Used {
 			tr.obligeG("true", "anchor", "anchor.at_call."+at.Expr, "false", token.NoPos, nil, "no call matches this anchor any more")
@@ -446,6 +460,7 @@ func (tr *fnTrans) autoInvariants(li *loopInfo, phis []*ssa.Phi, ov map[ssa.Valu
 }
 
 func (tr *fnTrans) checkInvariants(li *loopInfo, guard string, st *State, ov map[ssa.Value]Term, what string) {
+	what = fmt.Sprintf("%s#%d", what, tr.ord(fmt.Sprintf("loop%d.%s", li.ord, what)))
 	var phis []*ssa.Phi
 	for _, ins := range li.header.Instrs {
 		if ph, ok := ins.(*ssa.Phi); ok {
@@ -469,8 +484,9 @@ func (tr *fnTrans) checkInvariants(li *loopInfo, guard string, st *State, ov map
 			label = fmt.Sprint(i)
 		}
 		tr.obligeG(guard, "inv", fmt.Sprintf("loop%d.inv.%s.%s", li.ord, label, what), s, token.NoPos, tr.propsOfLabel(inv.Label), inv.Src)
+		tr.obls[len(tr.obls)-1].Pos = fmt.Sprintf("edge from block %d (%s)", tr.curBlock.Index, tr.curBlock.Comment)
 	}
-	if what == "preserved" && len(li.measure0) > 0 {
+	if strings.HasPrefix(what, "preserved") && len(li.measure0) > 0 {
 		var cur []Term
 		for _, m := range li.spec.Decreases {
 			t, err := ev.Eval(m)
@@ -479,7 +495,7 @@ func (tr *fnTrans) checkInvariants(li *loopInfo, guard string, st *State, ov map
 			}
 			cur = append(cur, t)
 		}
-		tr.obligeG(guard, "decreases", fmt.Sprintf("loop%d.decreases", li.ord), lexLess(cur, li.measure0), token.NoPos, nil, "")
+		tr.obligeG(guard, "decreases", fmt.Sprintf("loop%d.decreases.%s", li.ord, what), lexLess(cur, li.measure0), token.NoPos, nil, "")
 	}
 }
 
@@ -496,7 +512,7 @@ func lexLess(cur, old []Term) string {
 
 // loopEval builds an evaluator whose identifiers resolve to the loop's source-level variables.
 func (tr *fnTrans) loopEval(li *loopInfo, st *State, ov map[ssa.Value]Term) *evalCtx {
-	return &evalCtx{tr: tr, env: tr.params, cur: st, old: tr.entry, names: func(name string) (Term, bool) {
+	return &evalCtx{tr: tr, env: tr.params, cur: st, old: tr.entry, names: func(_ *evalCtx, name string) (Term, bool) {
 		return tr.resolveVar(name, li.header, st, ov)
 	}}
 }
@@ -605,6 +621,29 @@ func (tr *fnTrans) resolveVarAt(name string, at *ssa.BasicBlock, pointIdx int, s
 			}
 		case c.blk.Dominates(at):
 			t, ok = tr.valIfKnown(c.v)
+		default:
+			// loop header: a value defined in the header itself (e.g. the range index), referenced later
+			_, vIsPhi := c.v.(*ssa.Phi)
+			if ins, isIns := c.v.(ssa.Instruction); isIns && pointIdx < 0 && ins.Block() == at && !c.isPhi && !vIsPhi {
+				t, ok = tr.termUnder(c.v, ov, at)
+				if ok && t.S != "" {
+					rank := [2]int{domDepth(at), 1 << 20}
+					if rank[0] > bestRank[0] || rank[0] == bestRank[0] && rank[1] > bestRank[1] {
+						bestRank, best, found = rank, t, true
+					}
+				}
+				continue
+			}
+			// the reference sits elsewhere, but the value itself is defined in a dominating block
+			if ins, isIns := c.v.(ssa.Instruction); isIns && !c.isPhi && !vIsPhi && ins.Block() != at && ins.Block().Dominates(at) {
+				if tv, has := tr.vals[c.v]; has && tv.S != "" {
+					rank := [2]int{domDepth(ins.Block()), -1}
+					if rank[0] > bestRank[0] || rank[0] == bestRank[0] && rank[1] > bestRank[1] {
+						bestRank, best, found = rank, tv, true
+					}
+				}
+			}
+			continue
 		}
 		if !ok || t.S == "" {
 			continue
@@ -632,12 +671,13 @@ func (tr *fnTrans) termUnder(v ssa.Value, ov map[ssa.Value]Term, b *ssa.BasicBlo
 		return t, true
 	}
 	ins, isIns := v.(ssa.Instruction)
-	if !isIns || ins.Block() != b || len(ov) == 0 {
-		if _, isC := v.(*ssa.Const); isC {
-			return tr.val(v), true
+	if !isIns || ins.Block() != b {
+		return tr.valIfKnown(v)
+	}
+	if len(ov) == 0 {
+		if t, ok := tr.vals[v]; ok {
+			return t, true
 		}
-		t, ok := tr.vals[v]
-		return t, ok
 	}
 	switch x := v.(type) {
 	case *ssa.BinOp:
@@ -685,10 +725,12 @@ func (tr *fnTrans) loopMods(li *loopInfo) {
 				li.modComps["G:evclock"] = true
 				for _, st := range x.States {
 					li.modComps["G:sentlog_"+tr.c.sortOf(tr.chanElem(st.Chan.Type()))] = true
+					li.modComps["G:recvlog_"+tr.c.sortOf(tr.chanElem(st.Chan.Type()))] = true
 				}
 			case *ssa.UnOp:
 				if x.Op == token.ARROW {
 					li.modComps["G:recvd"] = true
+					li.modComps["G:recvlog_"+tr.c.sortOf(tr.chanElem(x.X.Type()))] = true
 				}
 			case *ssa.MakeChan:
 				for _, g := range []string{"G:chcap", "G:sent", "G:recvd", "G:closed"} {
@@ -741,9 +783,21 @@ func (tr *fnTrans) loopMods(li *loopInfo) {
 			}
 		}
 	}
-	for _, at := range tr.spec.Ats {
-		for _, g := range at.Ghosts {
-			li.modComps["G:"+g.Name] = true // conservative: at-blocks may sit in any loop
+	if len(tr.spec.Ats) > 0 {
+		for b := range li.body {
+			for _, ins := range b.Instrs {
+				ci, ok := ins.(ssa.CallInstruction)
+				if !ok {
+					continue
+				}
+				_ = ci
+				tr.callText(ins.Pos())
+				for _, at := range tr.matchAts(ins.Pos()) {
+					for _, g := range at.Ghosts {
+						li.modComps["G:"+g.Name] = true
+					}
+				}
+			}
 		}
 	}
 	for cn := range li.modComps {
@@ -791,4 +845,43 @@ func (tr *fnTrans) locShape(v ssa.Value) loc {
 	}
 	pt := types.Unalias(v.Type()).Underlying().(*types.Pointer)
 	return tr.refLoc("x", pt.Elem(), false)
+}
+
+// checkIterEnsures checks the per-iteration postconditions of loop li on the back edge leaving block b.
+func (tr *fnTrans) checkIterEnsures(li *loopInfo, guard string, b *ssa.BasicBlock, ov map[ssa.Value]Term) {
+	if li.spec == nil || len(li.spec.IterEnsures) == 0 {
+		return
+	}
+	k := tr.ord(fmt.Sprintf("iter%d", li.ord))
+	ev := &evalCtx{tr: tr, env: tr.params, cur: tr.cur, old: li.hdrState}
+	ev.names = func(cx *evalCtx, name string) (Term, bool) {
+		if cx.cur == li.hdrState {
+			// inside old(): the value at the loop header of this iteration
+			return tr.resolveVarAt(name, li.header, -1, li.hdrState, nil)
+		}
+		// loop-carried variables: the value flowing back into the header
+		for _, ins := range li.header.Instrs {
+			if ph, ok := ins.(*ssa.Phi); ok && ph.Comment == name {
+				t, ok := ov[ph]
+				return t, ok
+			}
+		}
+		return tr.resolveVarAt(name, b, len(b.Instrs), cx.cur, nil)
+	}
+	for i, c := range li.spec.IterEnsures {
+		s, err := ev.EvalBool(c.E)
+		label := c.Label
+		if label == "" {
+			label = fmt.Sprint(i)
+		}
+		if err != nil {
+			tr.note("loop %d iter_ensures %s skipped on back edge #%d (from block %d): %v", li.ord, label, k, b.Index, err)
+			continue
+		}
+		if tr.iterCovered == nil {
+			tr.iterCovered = map[string]int{}
+		}
+		tr.iterCovered[fmt.Sprintf("%d/%s", li.ord, label)]++
+		tr.obligeG(guard, "iter", fmt.Sprintf("loop%d.iter.%s#%d", li.ord, label, k), s, token.NoPos, tr.propsOfLabel(c.Label), c.Src)
+	}
 }
